@@ -319,7 +319,44 @@ pub fn project2(s: &Schema, sh: &Shape, x: &TVal) -> (Result<TVal, String>, bool
             }
         }
     };
-    (r, ERR_ALSO_OK.with(|c| c.get()), MISTYPED_UNION.with(|c| c.get()))
+    // the projection stops at the first reason to fail; whether a mistyped union variant
+    // occurs ANYWHERE in the value (the decoder meets it before or after that reason,
+    // depending on field order) is established by a walk of its own
+    let mistyped = MISTYPED_UNION.with(|c| c.get())
+        || match sh {
+            Shape::Def(i) => mistyped_union_in(s, &Ty::Ref(*i), x),
+            _ => {
+                let (fields, is_union, _) = s.target_fields(sh);
+                match x {
+                    TVal::Struct(fs) => mistyped_union_in_fields(s, &fields, is_union, fs),
+                    _ => false,
+                }
+            }
+        };
+    (r, ERR_ALSO_OK.with(|c| c.get()), mistyped)
+}
+
+fn mistyped_union_in(s: &Schema, ty: &Ty, v: &TVal) -> bool {
+    match (s.resolve(ty), v) {
+        (Ty::List(t), TVal::List(_, xs)) | (Ty::Set(t), TVal::Set(_, xs)) => xs.iter().any(|x| mistyped_union_in(s, t, x)),
+        (Ty::Map(k, vt), TVal::Map(_, _, es)) => es.iter().any(|(a, b)| mistyped_union_in(s, k, a) || mistyped_union_in(s, vt, b)),
+        (Ty::Ref(d), TVal::Struct(fs)) => {
+            let def = &s.defs[*d];
+            match def.kind {
+                Kind::Struct | Kind::Exception | Kind::Union => mistyped_union_in_fields(s, &def.fields, def.kind == Kind::Union, fs),
+                _ => false,
+            }
+        }
+        _ => false,
+    }
+}
+
+fn mistyped_union_in_fields(s: &Schema, fields: &[Field], is_union: bool, fs: &[(i16, TVal)]) -> bool {
+    fs.iter().any(|(id, v)| match fields.iter().find(|f| f.id == *id) {
+        Some(f) if s.tt(&f.ty) == v.tt() => mistyped_union_in(s, &f.ty, v),
+        Some(_) => is_union,
+        None => false,
+    })
 }
 
 fn project_ty(s: &Schema, ty: &Ty, v: &TVal) -> Result<TVal, String> {
